@@ -1,0 +1,28 @@
+//go:build verif
+
+// Verification hook for property C04 (add-only, compiled only with -tags verif): exposes the unexported
+// sink / sanitizer / validator classification of dataflow graph nodes so that the /verif harness can call the real
+// functions on every node of the real inter-procedural graph.
+
+package taint
+
+import (
+	"github.com/awslabs/ar-go-tools/analysis/config"
+	"github.com/awslabs/ar-go-tools/analysis/dataflow"
+	"golang.org/x/tools/go/ssa"
+)
+
+// VerifIsSink is isSink.
+func VerifIsSink(state *dataflow.AnalyzerState, ts *config.TaintSpec, n dataflow.GraphNode) bool {
+	return isSink(state, ts, n)
+}
+
+// VerifIsSanitizer is isSanitizer.
+func VerifIsSanitizer(state *dataflow.AnalyzerState, ts *config.TaintSpec, n dataflow.GraphNode) bool {
+	return isSanitizer(state, ts, n)
+}
+
+// VerifIsValidatorCondition is isValidatorCondition.
+func VerifIsValidatorCondition(ts *config.TaintSpec, v ssa.Value, isPositive bool) bool {
+	return isValidatorCondition(ts, v, isPositive)
+}
